@@ -77,6 +77,15 @@ Sequence(k, rem) ==
   /\ UNCHANGED <<now, stored, issued, sths>>
   /\ Record(Step("Sequence", [k |-> k, rem |-> rem], [status |-> 0]))
 
+\* the backend re-issues its root for an unchanged tree with a fresh timestamp (Trillian signs a new root
+\* when the previous one gets old); the front end must serve the new timestamp under a signature over it
+Resign(rem) ==
+  /\ rootTs.tick < now
+  /\ rootTs' = [tick |-> now, rem |-> rem]
+  /\ roots' = roots \cup {[size |-> Len(tree), tick |-> now]}
+  /\ UNCHANGED <<now, stored, queue, tree, issued, sths>>
+  /\ Record(Step("Resign", [rem |-> rem], [status |-> 0]))
+
 (* ---------------- submission (C01) ---------------- *)
 AddChain(c, ep) ==
   LET matches == (ep = "add-pre-chain") = (Kind(c) = "precert")
@@ -139,6 +148,7 @@ Sizes == 0..(MaxTree + 1)
 Next ==
   \/ Tick
   \/ \E k \in 1..MaxTree, r \in Rems : Sequence(k, r)
+  \/ \E r \in Rems : Resign(r)
   \/ \E c \in Certs, ep \in Endpoints : AddChain(c, ep)
   \/ GetSTH
   \/ \E f \in Sizes, s \in Sizes : GetConsistency(f, s)
